@@ -364,6 +364,65 @@ func runC12(r *core.Run) {
 			}
 		}, checkCanon)
 
+	core.Clause(r, "canonical-kmers-very-long", core.Opts{Rule: "aperiodic sequences of 65535..65540, 65536+k and 131073 bases (upper case, mixed case) x k in {1, 2, 31}: exactly len-k+1 items, each the smaller of the window and its reverse complement; more than 65536 items per run, so every internal block size up to that is crossed; non-trivial = all"},
+		func(emit func(c12Canon) bool) {
+			for _, l := range []int{65535, 65536, 65537, 65538, 65540, 65567, 131073} {
+				for v := 0; v < 2; v++ {
+					b := make([]byte, l)
+					x := uint64(0x9E3779B97F4A7C15) + uint64(l)
+					for i := range b {
+						x ^= x << 13
+						x ^= x >> 7
+						x ^= x << 17
+						b[i] = "ACGT"[x>>62]
+						if v == 1 && (x>>40)&3 == 0 {
+							b[i] += 'a' - 'A'
+						}
+					}
+					for _, k := range []int{1, 2, 31} {
+						if !emit(c12Canon{core.S(b), k}) {
+							return
+						}
+					}
+				}
+			}
+		},
+		func(c c12Canon) core.Outcome {
+			seq := c.Seq.B()
+			n := len(seq) - c.K + 1
+			i := 0
+			var fail string
+			p := catch(func() {
+				for km := range sequtil.CanonicalSubsequences(seq, c.K) {
+					if i >= n {
+						fail = fmt.Sprintf("more than %d items", n)
+						return
+					}
+					w := seq[i : i+c.K]
+					rc, _ := ref.RevComp(w)
+					want := w
+					if bytes.Compare(rc, w) < 0 {
+						want = rc
+					}
+					if !bytes.Equal(km, want) {
+						fail = fmt.Sprintf("item %d is %q, want %q", i, km, want)
+						return
+					}
+					i++
+				}
+			})
+			if p != "" {
+				return core.Failf("CanonicalSubsequences on %d bases, k=%d: panic: %s", len(seq), c.K, p)
+			}
+			if fail == "" && i != n {
+				fail = fmt.Sprintf("%d items, want %d", i, n)
+			}
+			if fail != "" {
+				return core.Failf("CanonicalSubsequences on %d bases, k=%d: %s", len(seq), c.K, fail)
+			}
+			return core.Outcome{Class: fmt.Sprint("k=", c.K), Nontrivial: true}
+		})
+
 	LC := core.Pick(r, 6, 7)
 	r.Bound("canonical", fmt.Sprintf("all sequences over ACGTNa of length 0..%d x k in 1..%d", LC, LC+1))
 	core.Clause(r, "canonical-kmers", core.Opts{Rule: "every sequence over {A,C,G,T,N,a} up to the bound x every k in 1..bound+1; non-trivial = at least 2 items yielded"},
